@@ -75,6 +75,21 @@ func bytesToVal(b []byte) (hval, int, error) {
 	return hval(clone(b)), len(b), nil
 }
 
+// The "view" codecs hand the byte slices through without copying, like `testValue` / `testKey` of the
+// package's own tests (`return b, len(b), nil`): what Get returns then aliases the bytes the trie holds.
+func bytesToKeyView(b []byte) (hkey, int, error) { return hkey(b), len(b), nil }
+
+func bytesToValView(b []byte) (hval, int, error) {
+	if len(b) > 0 && b[0] == 0xDD {
+		return nil, 0, errDecode
+	}
+	if len(b) > 0 && b[0] == 0xCC {
+		return hval(b), len(b) - 1, nil
+	}
+
+	return hval(b), len(b), nil
+}
+
 type amap = ads.Map[[32]byte, hkey, hval]
 type aset = ads.Set[[32]byte, hkey]
 
@@ -82,6 +97,14 @@ func openMap(st kvstore.KVStore) amap {
 	return ads.NewMap[[32]byte](st, typeutils.ByteArray32ToBytes, typeutils.ByteArray32FromBytes,
 		keyToBytes, bytesToKey, valToBytes, bytesToVal)
 }
+
+// openMapView: the flavour `mapa` — a map whose deserializers do not copy.
+func openMapView(st kvstore.KVStore) amap {
+	return ads.NewMap[[32]byte](st, typeutils.ByteArray32ToBytes, typeutils.ByteArray32FromBytes,
+		keyToBytes, bytesToKeyView, valToBytes, bytesToValView)
+}
+
+func isFlavour(f string) bool { return f == "map" || f == "mapa" || f == "set" }
 
 func openSet(st kvstore.KVStore) aset {
 	return ads.NewSet[[32]byte](st, typeutils.ByteArray32ToBytes, typeutils.ByteArray32FromBytes, keyToBytes, bytesToKey)
@@ -93,7 +116,7 @@ func openSet(st kvstore.KVStore) aset {
 type pair struct{ k, v []byte }
 
 type inst struct {
-	flavour string // map | set
+	flavour string // map | mapa (non-copying deserializers) | set
 	store   kvstore.KVStore
 	m       amap
 	s       aset
@@ -105,8 +128,10 @@ type inst struct {
 	tainted   bool // reopened with un-committed changes: the property does not speak about it any more
 }
 
+func (in *inst) isMap() bool { return in.flavour != "set" }
+
 func (in *inst) root() [32]byte {
-	if in.flavour == "map" {
+	if in.isMap() {
 		return in.m.Root()
 	}
 
@@ -114,7 +139,7 @@ func (in *inst) root() [32]byte {
 }
 
 func (in *inst) size() int {
-	if in.flavour == "map" {
+	if in.isMap() {
 		return in.m.Size()
 	}
 
@@ -122,7 +147,7 @@ func (in *inst) size() int {
 }
 
 func (in *inst) restored() bool {
-	if in.flavour == "map" {
+	if in.isMap() {
 		return in.m.WasRestoredFromStorage()
 	}
 
@@ -130,7 +155,7 @@ func (in *inst) restored() bool {
 }
 
 func (in *inst) has(k hkey) (bool, error) {
-	if in.flavour == "map" {
+	if in.isMap() {
 		return in.m.Has(k)
 	}
 
@@ -138,7 +163,7 @@ func (in *inst) has(k hkey) (bool, error) {
 }
 
 func (in *inst) del(k hkey) (bool, error) {
-	if in.flavour == "map" {
+	if in.isMap() {
 		return in.m.Delete(k)
 	}
 
@@ -146,7 +171,7 @@ func (in *inst) del(k hkey) (bool, error) {
 }
 
 func (in *inst) commit() error {
-	if in.flavour == "map" {
+	if in.isMap() {
 		return in.m.Commit()
 	}
 
@@ -156,7 +181,7 @@ func (in *inst) commit() error {
 // stream returns the pairs handed to the callback, in order, and the error of Stream.
 func (in *inst) stream(stop int) ([]pair, error) {
 	var ps []pair
-	if in.flavour == "map" {
+	if in.isMap() {
 		err := in.m.Stream(func(k hkey, v hval) error {
 			ps = append(ps, pair{clone(k), clone(v)})
 			if len(ps) == stop {
@@ -181,11 +206,54 @@ func (in *inst) stream(stop int) ([]pair, error) {
 }
 
 func (in *inst) reopen() {
-	if in.flavour == "map" {
+	switch in.flavour {
+	case "map":
 		in.m = openMap(in.store)
-	} else {
+	case "mapa":
+		in.m = openMapView(in.store)
+	default:
 		in.s = openSet(in.store)
 	}
+}
+
+// probe opens one more instance of the same flavour over the same store; it is only read from.
+func (in *inst) probe() *inst {
+	p := &inst{flavour: in.flavour, store: in.store}
+	p.reopen()
+
+	return p
+}
+
+// freshRoots caches, per contents, the root of a new map (copying codecs, own mapdb) that was fed
+// exactly these contents in key order: what "the root depends on the contents alone" is measured against.
+var freshRoots = map[string][32]byte{}
+
+func freshRoot(want map[string][]byte) [32]byte {
+	c := canon(want)
+	if rt, ok := freshRoots[c]; ok {
+		return rt
+	}
+	m := openMap(mapdb.NewMapDB())
+	keys := make([]string, 0, len(want))
+	for k := range want {
+		keys = append(keys, k)
+	}
+	sort.Strings(keys)
+	for _, k := range keys {
+		v := hval(clone(want[k]))
+		if want[k] == nil {
+			v = nil
+		}
+		if err := m.Set(hkey(k), v); err != nil {
+			panic("harness: fresh instance refuses " + hex.EncodeToString([]byte(k)) + ": " + err.Error())
+		}
+	}
+	rt := m.Root()
+	if len(freshRoots) < 200000 {
+		freshRoots[c] = rt
+	}
+
+	return rt
 }
 
 func canon(m map[string][]byte) string {
@@ -363,7 +431,7 @@ func (ss *session) exec(op string) string {
 		return "ok"
 	}
 	if f[0] == "open" {
-		if len(f) != 3 || (f[2] != "map" && f[2] != "set") {
+		if len(f) != 3 || !isFlavour(f[2]) {
 			return "bad-op"
 		}
 		in := &inst{flavour: f[2], store: mapdb.NewMapDB(), want: map[string][]byte{}, committed: map[string][]byte{}}
@@ -374,7 +442,7 @@ func (ss *session) exec(op string) string {
 	}
 	if f[0] == "openr" {
 		// openr <i> <flavour> <d> <seg/seg/...>: instance i over a realm view of the shared database d
-		if len(f) != 5 || (f[2] != "map" && f[2] != "set") {
+		if len(f) != 5 || !isFlavour(f[2]) {
 			return "bad-op"
 		}
 		d, err := strconv.Atoi(f[3])
@@ -432,7 +500,7 @@ func (ss *session) execOn(in *inst, idx int, f []string) string {
 		var v hval
 		var aerr error
 		switch {
-		case f[0] == "set" && len(f) == 4 && in.flavour == "map":
+		case f[0] == "set" && len(f) == 4 && in.isMap():
 			kb, v = hx.UnHex(f[2]), parseVal(f[3])
 			ss.r.Count("value:" + valKind(f[3]))
 			aerr = in.m.Set(hkey(kb), v)
@@ -461,7 +529,7 @@ func (ss *session) execOn(in *inst, idx int, f []string) string {
 
 		return ans
 	case "get":
-		if len(f) != 3 || in.flavour != "map" {
+		if len(f) != 3 || !in.isMap() {
 			return "bad-op"
 		}
 		kb := hx.UnHex(f[2])
@@ -496,6 +564,70 @@ func (ss *session) execOn(in *inst, idx int, f []string) string {
 			}
 			if ans != exp {
 				ss.fail("get-agrees", "get", in, fmt.Sprintf("Get(%x) answered %q, the plain map says %q", kb, ans, exp))
+			}
+		}
+
+		return ans
+	case "rmw":
+		// rmw <i> <key> <byte>: read-modify-write-back — v := Get(key); v[0] = byte (in place, in the slice
+		// that Get returned); Set(key, v).  With the non-copying deserializers of `mapa` the slice is the
+		// one the trie's leaf holds.
+		if len(f) != 4 || !in.isMap() {
+			return "bad-op"
+		}
+		kb, nb := hx.UnHex(f[2]), hx.UnHex(f[3])
+		if len(nb) != 1 || nb[0] >= 0x80 {
+			return "bad-op"
+		}
+		v, exists, err := in.m.Get(hkey(kb))
+		w, has := in.want[string(kb)]
+		var ans string
+		switch {
+		case err != nil && strings.Contains(err.Error(), "failed to deserialize value"):
+			ans = "err-dec"
+		case err != nil && strings.Contains(err.Error(), "failed to parse entire value"):
+			ans = "err-partial"
+		case err != nil:
+			ans = classifyKeyErr(err)
+		case !exists:
+			ans = "notfound"
+		case len(v) == 0:
+			ans = "empty"
+		default:
+			if check && (!has || !bytes.Equal(v, w)) {
+				ss.fail("get-agrees", "rmw", in, fmt.Sprintf("Get(%x) answered %x, the plain map says %x (present=%v)", kb, v, w, has))
+			}
+			v[0] = nb[0]
+			ans = classifySetErr(in.m.Set(hkey(kb), v))
+			if check && ans != "ok" {
+				ss.fail("set-result", "rmw", in, "Set of a value obtained from Get and modified answered "+ans)
+			}
+			if ans == "ok" {
+				in.want[string(kb)] = clone(v)
+				in.muts++
+				ss.mutations++
+				ss.r.Count("rmw:written-back:" + in.flavour)
+			}
+		}
+		if check && ans != "ok" {
+			exp := "notfound"
+			if has {
+				switch {
+				case len(w) > 0 && w[0] == 0xDD:
+					exp = "err-dec"
+				case len(w) > 0 && w[0] == 0xCC:
+					exp = "err-partial"
+				case len(w) == 0:
+					exp = "empty"
+				default:
+					exp = "ok"
+				}
+			}
+			if len(kb) > 0 && kb[0] == 0xEE {
+				exp = "err-key"
+			}
+			if ans != exp {
+				ss.fail("get-agrees", "rmw", in, fmt.Sprintf("read-modify-write of %x answered %q, the plain map says %q", kb, ans, exp))
 			}
 		}
 
@@ -590,6 +722,9 @@ func (ss *session) execOn(in *inst, idx int, f []string) string {
 		}
 		in.commits++
 		in.committed = copyMap(in.want)
+		if check {
+			ss.checkProbe(in, "commit")
+		}
 
 		return "ok"
 	case "restored":
@@ -611,6 +746,9 @@ func (ss *session) execOn(in *inst, idx int, f []string) string {
 			}
 		}
 		if check {
+			if fr := freshRoot(in.want); fr != rt {
+				ss.fail("root-content-only", "root", in, fmt.Sprintf("Root() differs from the root of a new map fed the same contents {%s}", c))
+			}
 			repeat := "new-class"
 			for i, p := range ss.points {
 				if p.tainted {
@@ -684,7 +822,7 @@ func (ss *session) execOn(in *inst, idx int, f []string) string {
 			if err != nil || !h {
 				ss.fail("reopen-faithful", "reopen", in, fmt.Sprintf("key %x lost by reopening", k))
 			}
-			if in.flavour == "map" && !(len(w) > 0 && (w[0] == 0xDD || w[0] == 0xCC)) {
+			if in.isMap() && !(len(w) > 0 && (w[0] == 0xDD || w[0] == 0xCC)) {
 				v, ex, err := in.m.Get(hkey(k))
 				if err != nil || !ex || !bytes.Equal(v, w) {
 					ss.fail("reopen-faithful", "reopen", in, fmt.Sprintf("value of %x is %x/%v/%v after reopening, want %x", k, v, ex, err, w))
@@ -696,6 +834,39 @@ func (ss *session) execOn(in *inst, idx int, f []string) string {
 	}
 
 	return "bad-op"
+}
+
+// checkProbe: directly after a Commit, one more instance opened over the same store (read only)
+// reports the live instance's Root and Size, says it was restored, and holds exactly the plain map.
+func (ss *session) checkProbe(in *inst, op string) {
+	p := in.probe()
+	if rt, prt := in.root(), p.root(); rt != prt {
+		ss.fail("reopen-faithful", op, in, "an instance opened after Commit reports another Root() than the committed one")
+	} else if fr := freshRoot(in.want); fr != prt {
+		ss.fail("reopen-faithful", op, in, fmt.Sprintf("an instance opened after Commit reports a Root() that is not the root of the contents {%s}", canon(in.want)))
+	}
+	if n := p.size(); n != len(in.want) {
+		ss.fail("reopen-faithful", op, in, fmt.Sprintf("an instance opened after Commit reports Size() = %d, the plain map holds %d", n, len(in.want)))
+	}
+	if !p.restored() {
+		ss.fail("restored-iff-committed", op, in, "an instance opened after Commit reports WasRestoredFromStorage() = false")
+	}
+	for k, w := range in.want {
+		h, err := p.has(hkey(k))
+		if err != nil || !h {
+			ss.fail("reopen-faithful", op, in, fmt.Sprintf("key %x is missing in an instance opened after Commit", k))
+		}
+		if in.isMap() && !(len(w) > 0 && (w[0] == 0xDD || w[0] == 0xCC)) {
+			v, ex, err := p.m.Get(hkey(k))
+			if err != nil || !ex || !bytes.Equal(v, w) {
+				ss.fail("reopen-faithful", op, in, fmt.Sprintf("an instance opened after Commit holds %x=%x (exists=%v, %v), the plain map says %x", k, v, ex, err, w))
+			}
+		}
+	}
+	ps, _ := p.stream(0)
+	if len(ps) > len(in.want) {
+		ss.fail("reopen-faithful", op, in, fmt.Sprintf("an instance opened after Commit streams %d pairs, the plain map holds %d", len(ps), len(in.want)))
+	}
 }
 
 // checkStream: a completed Stream is exactly the plain map; an interrupted one is a duplicate-free
@@ -800,7 +971,7 @@ func (g *gen) reopenOps(i int) []string {
 
 func (g *gen) readOp(i int) string {
 	switch x := g.rng.Intn(100); {
-	case x < 22 && g.flavour[i] == "map":
+	case x < 22 && g.flavour[i] != "set":
 		return fmt.Sprintf("get %d %s", i, g.key())
 	case x < 44:
 		return fmt.Sprintf("has %d %s", i, g.key())
@@ -820,8 +991,19 @@ func (g *gen) readOp(i int) string {
 	}
 }
 
+// rmwOp: read-modify-write-back of key k; the first byte of the value becomes b.
+func (g *gen) rmwOp(i int, k, b string) string {
+	g.pending[i] = true
+
+	return fmt.Sprintf("rmw %d %s %s", i, k, b)
+}
+
+var rmwBytes = []string{"61", "62", "00", "7f", "41"}
+
 func (g *gen) randomOp(i int) []string {
 	switch x := g.rng.Intn(100); {
+	case x < 8 && g.flavour[i] != "set":
+		return []string{g.rmwOp(i, g.key(), hx.Pick(g.rng, rmwBytes))}
 	case x < 34:
 		return []string{g.setOp(i, g.key(), g.val())}
 	case x < 50:
@@ -863,7 +1045,21 @@ func (g *gen) pathTo(i int, target map[string]string) []string {
 		if g.rng.Chance(1, 4) {
 			t = append(t, g.setOp(i, k, v), g.delOp(i, k))
 		}
-		t = append(t, g.setOp(i, k, v))
+		if g.flavour[i] != "set" && len(v) >= 2 && v != "nil" && v[:2] < "80" && g.rng.Chance(1, 3) {
+			// the target value arrives by read-modify-write-back: first with another first byte, then Get,
+			// the first byte patched in the returned slice, Set
+			other := "5a"
+			if v[:2] == other {
+				other = "5b"
+			}
+			t = append(t, g.setOp(i, k, other+v[2:]))
+			if g.rng.Chance(1, 3) {
+				t = append(t, fmt.Sprintf("commit %d", i))
+			}
+			t = append(t, g.rmwOp(i, k, v[:2]))
+		} else {
+			t = append(t, g.setOp(i, k, v))
+		}
 		tasks = append(tasks, t)
 	}
 	for _, k := range g.keys {
@@ -931,11 +1127,11 @@ func genSession(rng *hx.Rng, clusters []mine.Cluster, nOps int) []string {
 	for i := 0; i < nInst; i++ {
 		switch {
 		case mode < 5:
-			g.flavour = append(g.flavour, "map")
+			g.flavour = append(g.flavour, hx.Pick(rng, []string{"map", "mapa"}))
 		case mode < 7:
 			g.flavour = append(g.flavour, "set")
 		default:
-			g.flavour = append(g.flavour, hx.Pick(rng, []string{"map", "set"}))
+			g.flavour = append(g.flavour, hx.Pick(rng, []string{"map", "mapa", "set"}))
 		}
 	}
 	g.pending = make([]bool, nInst)
@@ -992,7 +1188,7 @@ func genSession(rng *hx.Rng, clusters []mine.Cluster, nOps int) []string {
 				k := hx.Pick(rng, ks)
 				if _, in := t[k]; in && rng.Bool() {
 					delete(t, k)
-				} else if g.flavour[i] == "map" && !anySet {
+				} else if g.flavour[i] != "set" && !anySet {
 					t[k] = "6e65696768626f7572"
 				} else {
 					t[k] = "-"
@@ -1035,7 +1231,7 @@ func genSession(rng *hx.Rng, clusters []mine.Cluster, nOps int) []string {
 				ops = append(ops, fmt.Sprintf("reopen %d", i))
 				for _, k := range tks {
 					ops = append(ops, fmt.Sprintf("has %d %s", i, k))
-					if g.flavour[i] == "map" && rng.Bool() {
+					if g.flavour[i] != "set" && rng.Bool() {
 						ops = append(ops, fmt.Sprintf("get %d %s", i, k))
 					}
 				}
@@ -1116,6 +1312,10 @@ func main() {
 		{"open 0 map", "set 0 ee01 61", "set 0 " + k.Core[0] + " ee01", "set 0 ee01 ee01", "size 0", "root 0", "set 0 " + k.Core[0] + " dd01", "get 0 " + k.Core[0],
 			"set 0 " + k.Far[0] + " cc0102", "get 0 " + k.Far[0], "stream 0 0", "stream 0 1", "has 0 ee01", "del 0 ee01", "get 0 ee01", "size 0", "root 0"},
 	}
+	// read-modify-write-back through non-copying deserializers: the value handed to Set is the leaf's own slice
+	corpus = append(corpus, []string{"open 0 mapa", "open 1 map", "set 0 " + k.Core[0] + " 61616161", "root 0", "rmw 0 " + k.Core[0] + " 62", "get 0 " + k.Core[0], "root 0",
+		"set 1 " + k.Core[0] + " 62616161", "root 1", "commit 0", "reopen 0", "get 0 " + k.Core[0], "root 0", "rmw 0 " + k.Core[0] + " 61", "rmw 0 " + k.Core[1] + " 61",
+		"commit 0", "rmw 0 " + k.Core[0] + " 62", "commit 0", "reopen 0", "root 0", "get 0 " + k.Core[0], "size 0", "stream 0 0"})
 	for _, c := range corpus {
 		runCase(r, 0, c)
 	}
